@@ -783,6 +783,37 @@ func apiCheckFunctions(t *testing.T) {
 		`$.a[*][0]`, `$.a[0][*]`, `$[*][0]`, `$.*[0]`, `$..['a','b']`, `$..['x','y']`, `$..[0]`, `$..[0,1]`, `$..*`, `$..[?(@)]`, `$.c['x','y']`, `$['c','zz'].x`,
 		// a function in the middle of the path
 		`$.a.rec()[*]`, `$.a.rec()[0]`, `$.b.rec()[*]`, `$.c.rec().*`, `$.a[*].rec()[0]`, `a.rec()[*]`, `$.p.q.r.s[*]`, `$.p.q.r.s`, `$.p.q.r.*`, `p.q.r.s[*]`}
+	// the list an aggregate is handed is its own: an aggregate that keeps (or returns) its argument sees it unchanged after
+	// later evaluations, in one call (a filter evaluating the function per member) and across calls
+	{
+		var kept [][]interface{}
+		var snaps []string
+		kcfg := Config{}
+		kcfg.SetAggregateFunction("keep", func(p []interface{}) (interface{}, error) {
+			kept = append(kept, p)
+			snaps = append(snaps, apiSnapshot(p))
+			return p, nil
+		})
+		seq := []struct{ path, doc string }{
+			{`$.a.keep()`, `{"a":{"x":1}}`}, {`$.b`, `{"b":"other"}`}, {`$.a.keep()`, `{"a":"s"}`}, {`$[?(@.a.keep())]`, `[{"a":"first"},{"a":"second"},{"a":{"k":3}}]`},
+			{`$.a[*].keep()`, `{"a":[1,2,3]}`}, {`$.*`, `{"p":9,"q":8,"r":7}`}, {`$.a.keep()`, `{"a":[4,5]}`}, {`$..a.keep()`, `{"a":{"a":6}}`}, {`$[*]`, `[10,11,12,13]`},
+		}
+		var firsts []interface{}
+		for _, st := range seq {
+			apiCount()
+			res, err := Retrieve(st.path, apiDecode(st.doc), kcfg)
+			if err == nil && strings.Contains(st.path, "keep") && len(res) > 0 {
+				firsts = append(firsts, res[0])
+			}
+		}
+		for i := range kept {
+			if got := apiSnapshot(kept[i]); got != snaps[i] {
+				t.Errorf("REPRODUCED: the argument list of aggregate call %d was %s when the function ran and reads %s after later evaluations", i, snaps[i], got)
+				return
+			}
+		}
+		_ = firsts
+	}
 	for _, ds := range docs {
 		for _, pre := range prefixes {
 			apiCount()
